@@ -488,6 +488,9 @@ class CSSParser:
         if not op:
             # Attribute name
             pattern = None
+        elif op.startswith(('^', '$', '*')) and not value:
+            # `^=`, `$=` and `*=` match nothing if the value is empty, so use `[^\s\S]` which cannot be matched.
+            pattern = re.compile(r'[^\s\S]', flags)
         elif op.startswith('^'):
             # Value start with
             pattern = re.compile(r'^%s.*' % re.escape(value), flags)
